@@ -88,6 +88,9 @@ func runC18(rc *RunCtx) {
 	rc.Cfg("faulty", faulty)
 
 	disk := NewDisk(s)
+	// second scheduling point per storage operation (effect vs. continuation) in a third of the runs
+	disk.PostGate = tp.Pick(3) == 2
+	rc.Cfg("post_gate", disk.PostGate)
 	h, err := BootCore(disk, CoreOpts{
 		DisableCache: cacheOff, CacheSize: 0, Plain: plain, DisableSSC: !ssc,
 		Logical: map[string]logical.Factory{"kv": kv.Factory},
